@@ -166,7 +166,8 @@ def workarray_fails(case):
     x0, pt, yb = np.array(case['rec']), np.array(case['pt']), np.array(case['ybar'])
     cg = algopy.CGraph()
     fx = algopy.Function(UTPM(x0.copy()))
-    acc = algopy.Function(UTPM(np.zeros(x0.shape)))
+    # (the storage of the work array may be owned by it or be a view of a larger allocation)
+    acc = algopy.Function(UTPM(np.zeros((2,) + x0.shape)[0] if case.get('nonowning') else np.zeros(x0.shape)))
     if case['form'] == 'iadd':
         acc += fx
         acc += fx * fx
@@ -351,6 +352,9 @@ def nontrivial(case):
 
 
 def replay_case(ctx, case):
+    if case.get('op') == 'svd-rankdef':
+        import revchecks as _rc
+        return _rc.svd_rankdef_sweeps_fail(case)
     if 'docgraph' in case:
         return docgraph_fails(case['docgraph'])
     if 'inplace_program' in case:
@@ -374,7 +378,7 @@ def run(ctx):
             ctx.report({'docgraph': order}, 'failure', f)
     for form in ('iadd', 'setitem', 'view-iadd'):
         for D_, P_ in ((1, 1), (2, 2)):
-            case = {'op': 'workarray', 'form': form, 'D': D_, 'P': P_, 'n': 3, 'rec': rand_coeffs(rng, (D_, P_, 3), -2, 2),
+            case = {'op': 'workarray', 'form': form, 'nonowning': (D_ == 2), 'D': D_, 'P': P_, 'n': 3, 'rec': rand_coeffs(rng, (D_, P_, 3), -2, 2),
                     'pt': rand_coeffs(rng, (D_, P_, 3), -2, 2), 'ybar': rand_coeffs(rng, (D_, P_, 3), -1, 1) + 0.125}
             ctx.evaluations += 1
             ctx.count('hand-wrapped-work-array')
@@ -388,6 +392,14 @@ def run(ctx):
         f = workarray_model_mismatch(ctx, case)
         if f:
             ctx.report(case, 'disagreement', f)
+    import revchecks as _rc
+    for _i in range(4):
+        case = _rc.svd_rankdef_case(rng)
+        ctx.evaluations += 1
+        ctx.count('svd-rank-deficient-sweeps')
+        f = _rc.svd_rankdef_sweeps_fail(case)
+        if f:
+            ctx.report(case, 'failure', f)
     names2 = ['gradient', 'jacobian', 'jacobian-utpm', 'hess_vec', 'jacobian-utpm-same-object']
     for i in range(12 if ctx.tier == 'quick' else 120):
         order = (['jacobian-utpm-same-object'] * 3) if i == 0 else [rng.choice(names2) for _ in range(rng.randint(2, 5))]
